@@ -104,6 +104,65 @@ def _reader_switch_values(rb, dest):
     return vals, n_sw
 
 
+_UBE = {}
+
+
+def _ub_engine(F):
+    from . import ub
+    if id(F) not in _UBE:
+        _UBE[id(F)] = ub.engine(F)
+    return _UBE[id(F)]
+
+
+def _reader_rejects(F, rb, dest):
+    """(operator, constant, where) of every test `value OP constant` on the decoded local (through integer casts and
+    From/Into) whose true edge can only end in an error."""
+    from .. import err
+    prods = {bb for bb, _ in err.result_producers(rb, F)}
+
+    def from_dest(op, depth=0):
+        p = op_place(op)
+        if p is None or p["p"] or depth > 8:
+            return False
+        if p["l"] == dest:
+            return True
+        d = rb.single_def(p["l"])
+        if not d:
+            return False
+        if d[2] == "assign" and d[3]["k"] in ("use", "cast"):
+            return from_dest(d[3]["op"], depth + 1)
+        if d[2] == "call" and re.search(r"convert::(From::from|Into::into)$", strip_generics(callee_def(d[3]))) and d[3]["args"]:
+            return from_dest(d[3]["args"][0], depth + 1)
+        return False
+    out = []
+    for sb in sorted(rb.normal_blocks()):
+        st = rb.term(sb)
+        if st["k"] != "switch" or len(st["targets"]) != 1:
+            continue
+        p = op_place(st["d"])
+        dd = rb.single_def(p["l"]) if p is not None and not p["p"] else None
+        if not (dd and dd[2] == "assign" and dd[3]["k"] == "binop" and dd[3]["op"] in ("Lt", "Le", "Gt", "Ge")):
+            continue
+        l, r = dd[3]["l"], dd[3]["r"]
+        kl, kr = flow.const_eval(rb, l), flow.const_eval(rb, r)
+        op = dd[3]["op"]
+        if kr is not None and kl is None and from_dest(l):
+            k = kr
+        elif kl is not None and kr is None and from_dest(r):
+            k, op = kl, {"Lt": "Gt", "Le": "Ge", "Gt": "Lt", "Ge": "Le"}[op]
+        else:
+            continue
+        true_edge = st["otherwise"]
+        false_edge = st["targets"][0][1]
+        t_err = not (prods & rb.reachable_from(true_edge))
+        f_err = not (prods & rb.reachable_from(false_edge))
+        if t_err and not f_err:
+            out.append((op, k, rb.where(sb)))
+        elif f_err and not t_err:
+            out.append(({"Lt": "Ge", "Le": "Gt", "Gt": "Le", "Ge": "Lt"}[op], k, rb.where(sb)))
+    return out
+
+
 def _p2_p5(F, rep, res, W, R):
     wb = F.body(PP + "write")
     rb = F.body(PP + "read")
@@ -134,6 +193,16 @@ def _p2_p5(F, rep, res, W, R):
                 missing = sorted(v for v in vals if v not in sv)
                 rep.add("P2", "code-points:%s" % (how.split("::")[-1] if "discriminants" in how else (wfields[-1] if wfields else how)), not missing, ww,
                         "writer may emit %s (%s); reader maps %s%s" % (sorted(vals), how, sorted(sv), "" if not missing else "; unmapped: %r" % missing))
+            # ---- P8: a range check on the decoded value must admit everything the writer can emit for this field
+            for (op, k, where8) in _reader_rejects(F, rb, dest):
+                ubw = _ub_engine(F).operand(wb, wt["args"][1], wbb)
+                lo_rej = {"Gt": k + 1, "Ge": k}.get(op)         # values >= lo_rej are refused
+                if lo_rej is not None:
+                    rep.add("P8", "reader-admits-writer-range:%s" % (wfields[-1] if wfields else ww), ubw < lo_rej, where8,
+                            "the reader refuses values >= %d of this field; the writer can emit up to %s" % (lo_rej, ubw))
+                else:
+                    rep.add("P8", "reader-admits-writer-range:%s" % (wfields[-1] if wfields else ww), False, where8,
+                            "UNRECOGNISED-IDIOM: the reader refuses values by %s %d; only upper limits are understood" % (op, k))
             # ---- P5
             if wfields:
                 rfields = _agg_fields_reached(rb, dest)
